@@ -141,6 +141,14 @@ func Encode(hrp string, data []byte) (string, error) {
 
 // Decode decodes a Bech32 string. If the string is uppercase, the HRP will be uppercase.
 func Decode(s string) (hrp string, data []byte, err error) {
+	// Only printable ASCII is valid anywhere in a Bech32 string. Checking this
+	// first also keeps the case folding below from mapping non-ASCII
+	// characters (such as U+212A KELVIN SIGN) into the charset.
+	for p := 0; p < len(s); p++ {
+		if s[p] < 33 || s[p] > 126 {
+			return "", nil, fmt.Errorf("invalid character: s[%d]=%d", p, s[p])
+		}
+	}
 	if strings.ToLower(s) != s && strings.ToUpper(s) != s {
 		return "", nil, fmt.Errorf("mixed case")
 	}
